@@ -38,8 +38,8 @@ CLAIMED = {
         design="5/C03"),
     "C04": dict(
         engine="E1-kernel-in-the-loop",
-        technique="Coq proof (invariant over steps: no timeout without a limit; range of the poll argument; byte invariant across timed-out calls) + kernel-in-the-loop correspondence under a virtual clock for the quantitative bounds",
-        text="Theorems C04_*: with no time limit a timeout is never reported, for every child and schedule (holds only since the fix of F1); the poll() argument is within 0..i32::MAX ms for every duration; across any history of timed-out and successful reads no byte is lost or repeated and the rest of the input stays queued once.  PARTIAL: 'returns by t + one I/O step' and 'TimedOut only after t elapsed (ms granularity)' are checked on the real code by the E1 monitors under virtual time (limits 0, 1 ns, sub-ms, > 2^31 ms, 30 days; flooding, silent, trickling children), not yet proved in Coq.",
+        technique="Coq proof (invariants over steps of the closed system: no timeout without a limit; range of the poll argument; byte invariant across timed-out calls; a time invariant relating the deadline, the instant each call was issued and K's clock, preserved by every step, which gives: TimedOut only when less than 1 ms is missing to the deadline) + kernel-in-the-loop correspondence under a virtual clock for the lateness bound",
+        text="Theorems C04_*: with no time limit a timeout is never reported, for every child and schedule (holds only since the fix of F1); with a limit, in the closed system where every call takes an arbitrary duration and a poll that finds nothing ready returns no earlier than its timeout, TimedOut is returned only when less than one millisecond is missing to the deadline = first clock reading of the call + limit (C04_timeout_truthful, C04_deadline_is_start_plus_limit); the poll() argument is within 0..i32::MAX ms for every duration; across any history of timed-out and successful reads nothing is lost or repeated and the unsent input stays queued exactly once.  PARTIAL: 'returns no later than t plus one bounded I/O step' is a monitor under the virtual clock (E1), not a theorem.",
         note="Trusted: as C01; wall-clock meaning of the virtual clock rests on the OS honouring poll timeouts.",
         design="5/C04"),
     "C05": dict(
